@@ -6,7 +6,7 @@ from .. import rules_pyx as rp
 from ..parse_model import ParseModel
 from .. import logic
 from ..core import AnalysisError, enclosing_function, qualname_of, src
-from ..pysym import SymExec, show, argof
+from ..pysym import SymExec, show, argof, subterms
 from ..rules_pyx import bind_args, N, C, A
 
 EXPLANATION = (
@@ -80,6 +80,18 @@ def r_label_recovery(repo, rep, R='R12.4'):
               % (n_match, sum(1 for m in match_ret if m)))
     rep.check(not unk_early, R, w, 'guess:unk-after-loop', 'the unknown label is produced only after all results were tried',
               'returns %s before the loop is exhausted' % unk_early)
+    # ... and the grammar is asked on every path: no returning path gives its answer without having called rules(x, y) -- a
+    # "cannot combine anyway" pre-filter written here knows less than the grammar (quotes, coordination of atoms, SSEQ)
+    unasked = []
+    for st, out in paths:
+        if out != 'return':
+            continue
+        asked = any(e[0] in ('loop-enter', 'loop-skip') and e[1] == it for e in st.events) or any(x_ == it for t_ in ([st.ret] if st.ret else []) for x_ in subterms(t_)) \
+            or any(e[0] == 'call' and e[1] == it for e in st.events)
+        if not asked:
+            unasked.append('; '.join('%s%s' % ('' if pol else 'not ', show(c)[:40]) for c, pol, _ in st.conds[-2:]))
+    rep.check(not unasked, R, w, 'guess:always-asks', 'every answer is given after asking the rules for this pair',
+              'a path answers without asking the grammar (when %s): nodes the active grammar derives are labelled unknown' % unasked[:1])
     # label recovery is a pure function of (rules, target, x, y): nothing is remembered between calls
     from .. import rules_unif as ru
     pur = ru.Purity(repo, rep, R)
@@ -262,6 +274,17 @@ def check(repo, rep, tier):
     from ..lints import r_no_reordering
     r_no_reordering(repo, rep, 'R12.3', [('depccg/tools/reader.py', 'read_xml'), ('depccg/tools/reader.py', 'read_jigg_xml')],
                     'the children of a node (the label is looked up for the pair left, right as the file lists them)')
+    odd = []
+    n_sel = 0
+    for rel_ in READER_FILES:
+        m_ = repo.module(rel_)
+        for s_ in ast.walk(m_.tree):
+            if isinstance(s_, ast.Subscript) and isinstance(s_.value, ast.Name) and s_.value.id == 'BINARY_RULES' and isinstance(s_.ctx, ast.Load):
+                n_sel += 1
+                if src(s_.slice).replace(' ', '') != 'get_global_language()':
+                    odd.append('%s:%s BINARY_RULES[%s]' % (rel_, s_.lineno, src(s_.slice)[:30]))
+    rep.check(not odd and n_sel >= 1, 'R12.3', '%s:1' % READER_FILES[1], 'readers:active-grammar', 'every reader takes its rules as BINARY_RULES[get_global_language()] (%d places)' % n_sel,
+              'a reader picks its rule set by something other than the active language: %s' % odd[:2])
     rep.rule('R12.5', 'the active grammar is the one selected for the process; the rule cache and the id-keyed containers live as long as one call')
     from ..lints import r_language_setting
     r_language_setting(repo, rep, 'R12.5', 'the readers pick the rule set by get_global_language() when they are called, so files read there are labelled with the '
